@@ -192,6 +192,34 @@ def run(ctx):
     ps3 = step.field(p, I3, st3, ma3, "raw.programsize", MACHINE)
     chk.ob("load/auto-programsize", isinstance(ps3, En) and list(ps3.vs.values()) == [(3,)],
            "*PROGRAMSIZE AUTO becomes the number of image bytes", b.loc(), "programsize after load: %r" % (ps3,))
+    # "applies the program's limits": every value of both directives, on a machine that holds limits from an earlier load
+    ps_names = [v["n"] for v in p.need_type("L::parser::ast::Programsize")["variants"]]
+    ss_names = [v["n"] for v in ss_t["variants"]]
+    old_ss = En({ss_names.index("_48"): ()})
+    old_ps = En({ps_names.index("Size"): (Opaque("old-size"),)})
+    for ssn in ss_names:
+        for psn, psv in (("Size", En({ps_names.index("Size"): (Opaque("new-size"),)})),
+                         ("Auto", En({ps_names.index("Auto"): ()})), ("NotSet", En({ps_names.index("NotSet"): ()}))):
+            bc4 = Agg([{"lines": lines_v, "stacksize": En({ss_names.index(ssn): ()}), "programsize": psv}[f] for f in names_bc])
+            I4 = absint.Interp(p)
+            I4.unroll = 8
+            st4 = absint.State()
+            ov4 = step.machine_overrides(p, None, None, None, stacksize_notset=False)
+            ov4["stacksize"] = old_ss
+            ov4["programsize"] = old_ps
+            ma4 = step.new_machine(p, I4, st4, ov4, MACHINE)
+            I4.events.clear()
+            r4 = I4.run_body(p.need_body(MACHINE + "::load"), [Ref(ma4, (), True), bc4], st4, 0)
+            ss4 = step.field(p, I4, st4, ma4, "raw.stacksize", MACHINE)
+            ps4 = step.field(p, I4, st4, ma4, "raw.programsize", MACHINE)
+            want_ss = old_ss if ssn == "NotSet" else En({ss_names.index(ssn): ()})
+            want_ps = {"Size": psv, "Auto": En({ps_names.index("Size"): (3,)}), "NotSet": old_ps}[psn]
+            bad4 = [e for e in I4.events if e.kind in step.BAD_EVENTS and not e.in_log]
+            chk.ob("load/limits/%s/%s" % (ssn, psn), ss4 == want_ss and ps4 == want_ps and not bad4 and r4 is not BOT,
+                   "load applies the program's limits: a stated stack or program size is stored, AUTO becomes the image length, "
+                   "NOSET keeps the limit the machine had", b.loc(),
+                   "stack size %r (expected %r), program size %r (expected %r) %s" % (ss4, want_ss, ps4, want_ps, bad4[:1]),
+                   "A4 of Machine::load per directive value on a machine holding earlier limits")
     # RAM zero fill: after master_reset + reset_ram (before the copy) the RAM is all zero
     st2 = absint.State()
     ov = step.machine_overrides(p, None, None, None, stacksize_notset=True)
